@@ -97,4 +97,8 @@ def failure_classes(case, out, fails):
             any("memcmp" in e or "MemcmpInterceptorCommon" in e for e in out.get("err", [])) and \
             len(out.get("lines", [])) >= 3 and not any(l.startswith("locall ") for l in out.get("lines", [])):
         return ["hhtfc_locate_memcmp_segv", "crash"]
+    # the rare residues of the decoding-table family recorded for HHTFC / HASHHF (finding decoding-table-unpopulated): death inside the decoder
+    if case.meta.get("kind") in ("HHTFC", "HASHHF") and out.get("status") not in ("ok",) and \
+            any(any(x in e for x in ("DecodingTable::getSubstring", "DecodingTable::processChunk", "VByte::decode", "StatCoder::decodeString")) for e in out.get("err", [])):
+        return ["decoding_table_crash", "crash"]
     return []
